@@ -742,7 +742,7 @@ class FsModel:
         return lib.dec(line[1:])
 
 
-PROBE = b'import sys\nprint("SP0:" + sys.path[0])\n'
+PROBE = b'import sys\nprint("SP0:" + ("<none>" if sys.flags.safe_path else sys.path[0]))\n'
 
 
 def run_env(out, H, AN, cfg, scratch_root, tier, rng, replay=None, model=None, dump=None, decoy="/", xcheck=None, workers=8):
@@ -1017,6 +1017,13 @@ def _run_env(out, H, AN, cfg, scratch_root, tier, rng, replay, model, dump, deco
                         disagree("PyEnv.analyze_path <-> analyze_python_file", c, path=e[0], model=ma, impl=ia)
         # (e) the specification py_syspath0 against the real interpreter: same layouts, every script replaced by a probe
         probe_cases = [c for c in cases if c.family == "access" and c.dims.get("nb") == "none"] + path_cases[::max(1, len(path_cases) // 150)]
+        for xo in (["-P"], ["-BI"], ["-W", "-P"], ["-WI"], ["-X", "-I"], ["--check-hash-based-pycs", "always", "-P"], ["-E", "-s"], ["-IP"], ["-bP"]):
+            pc_ = Case("access", {"access": "plain", "nb": "none", "option": " ".join(xo), "script": "x.py"},
+                       [("d", "w"), ("d", "home"), ("f", "w/x.py", safe_src(("json",)))], "python3 {T}", "w", ["python3"] + xo + ["x.py"])
+            r_ = os.path.join(jails, f"{next(counter):06d}")
+            build(r_, pc_.ops, so_bytes)
+            finalize(pc_, r_)
+            probe_cases.append(pc_)
         if path_cases:
             pr = os.path.join(jails, "paths-probe")
             build(pr, [(o[0], o[1], PROBE) if o[0] == "f" and o[1].endswith((".py", ".pyw")) and b"CANARY" not in o[2] else o for o in PATH_LAYOUT], so_bytes)
@@ -1037,7 +1044,7 @@ def _run_env(out, H, AN, cfg, scratch_root, tier, rng, replay, model, dump, deco
                 continue
             ms = fm.call("py_fs_syspath0", fs_of(c)[1], os.path.join(c.root, c.cwd), c.tokens)
             n_sp += 1
-            want = ["dir", m.group(1).replace(root2, c.root)]
+            want = ["none"] if m.group(1) == "<none>" else ["dir", m.group(1).replace(root2, c.root)]
             if ms is not None and ms != want:
                 disagree("py_syspath0 (specification) <-> sys.path[0] of /venv/bin/python", c, tokens=c.tokens, model=ms, impl=want)
         # (f) Path.suffix test, exhaustively over a small alphabet
